@@ -137,6 +137,8 @@ def make_spec(rng, version=None, size="small"):
 
 
 def chan_values(ch):
+    if "values" in ch:
+        return list(ch["values"])
     if ch["kind"] == "cont":
         return list(range(ch["n"]))
     return list(range(len(ch["ts"])))
